@@ -2,6 +2,8 @@
 package c19
 
 import (
+	"encoding/json"
+
 	"github.com/DemoHn/Zn/pkg/exec"
 	r "github.com/DemoHn/Zn/pkg/runtime"
 	"github.com/DemoHn/Zn/pkg/value"
@@ -105,25 +107,95 @@ func H_NonFinite() {
 	zv.Assert(err == nil && ok && s.GetValue() == "已拦截", "a non-finite number raises an exception a 拦截 handler can catch")
 }
 
-var malformed = []string{"{", "", "[1,2]", "{\"a\":}", "{\"a\":1,}", "nul", "{'a':1}", "{\"a\":1}x"}
+var malformed = []string{"{", "", "[1,2]", "{\"a\":}", "{\"a\":1,}", "nul", "{'a':1}", "{\"a\":1}x",
+	"{\"a\":1}}", "{\"a\":1},", "{\"a\":1}{\"b\":2}", "{\"a\":1} []", "x{\"a\":1}", "{\"a\":1}\"b\":2}", "{\"a\":01}", "{\"a\":1 \"b\":2}", "{\"a\":tru}", "{\"a\":\"x}", "{a:1}"}
+
+const parseProg = "导入《@JSON》\n输入T\n令E = （解析JSON：T）\n输出 “已解析”\n拦截异常：\n    输出 “已拦截”"
+
+func parses(text string) (parsed bool, ok bool) {
+	res, err, p := run(parseProg, r.ElementMap{"T": value.NewString(text)})
+	if p != nil || err != nil {
+		return false, false
+	}
+	s, isText := res.(*value.String)
+	if !isText {
+		return false, false
+	}
+	return s.GetValue() == "已解析", s.GetValue() == "已解析" || s.GetValue() == "已拦截"
+}
 
 // H_Malformed: malformed JSON raises a catchable exception; valid JSON parses.
 func H_Malformed() {
 	k := zv.Choose(len(malformed) + 1)
-	text := "{\"a\":[1,true,null,\"x\"],\"b\":{\"c\":2.5}}"
-	valid := k == len(malformed)
-	if !valid {
-		text = malformed[k]
-	}
-	res, err, p := run("导入《@JSON》\n输入T\n令E = （解析JSON：T）\n输出 E#“b”#“c”\n拦截异常：\n    输出 “已拦截”", r.ElementMap{"T": value.NewString(text)})
-	zv.Assert(p == nil, "malformed: no panic")
-	if valid {
+	if k == len(malformed) {
+		text := "{\"a\":[1,true,null,\"x\"],\"b\":{\"c\":2.5}}"
+		res, err, p := run("导入《@JSON》\n输入T\n令E = （解析JSON：T）\n输出 E#“b”#“c”\n拦截异常：\n    输出 “已拦截”", r.ElementMap{"T": value.NewString(text)})
+		zv.Assert(p == nil, "malformed: no panic")
 		n, ok := res.(*value.Number)
 		zv.Assert(err == nil && ok && n.GetValue() == 2.5, "valid JSON parses to the same structure")
 		return
 	}
-	s, ok := res.(*value.String)
-	zv.Assert(err == nil && ok && s.GetValue() == "已拦截", "malformed JSON raises an exception a 拦截 handler can catch")
+	parsed, ok := parses(malformed[k])
+	zv.Assert(ok, "malformed: no panic, no uncaught error")
+	zv.Assert(!parsed, "malformed JSON raises an exception a 拦截 handler can catch: "+malformed[k])
+}
+
+const mutDoc = "{\"a\":[1,true],\"b\":{\"c\":2.5},\"d\":\"x\"}"
+
+var mutChars = []byte{'}', '{', ',', '"', ':', ']', 'x', '0', ' '}
+
+// H_Mutations: one character of a valid document deleted, replaced or
+// inserted at a symbolic position: the text is accepted exactly when it is
+// still a JSON document whose top level is an object.
+func H_Mutations() {
+	doc := []byte(mutDoc)
+	pos := zv.Int("pos", 0, len(doc))
+	at := 0
+	for k := 0; k <= len(doc); k++ {
+		if pos == k {
+			at = k
+		}
+	}
+	op := zv.Choose(3)
+	var text []byte
+	switch op {
+	case 0: // delete
+		if at >= len(doc) {
+			return
+		}
+		text = append(append(text, doc[:at]...), doc[at+1:]...)
+	case 1: // insert
+		c := mutChars[zv.Choose(len(mutChars))]
+		text = append(append(append(text, doc[:at]...), c), doc[at:]...)
+	default: // replace
+		if at >= len(doc) {
+			return
+		}
+		c := mutChars[zv.Choose(len(mutChars))]
+		text = append(append(append(text, doc[:at]...), c), doc[at+1:]...)
+	}
+	want := json.Valid(text) && firstNonBlank(text) == '{'
+	parsed, ok := parses(string(text))
+	zv.Assert(ok, "mutated document: no panic, no uncaught error")
+	if parsed != want {
+		zv.Observe("text", string(text))
+	}
+	if want {
+		zv.Reach("still-valid")
+		zv.Assert(parsed, "a document that is still valid JSON with an object at top level parses")
+	} else {
+		zv.Reach("invalid")
+		zv.Assert(!parsed, "a document that is no longer valid JSON is rejected with a catchable exception")
+	}
+}
+
+func firstNonBlank(b []byte) byte {
+	for _, c := range b {
+		if c != ' ' && c != '\t' && c != '\n' && c != '\r' {
+			return c
+		}
+	}
+	return 0
 }
 
 // H_EmptyCollections: empty list / dictionary survive the round trip.
